@@ -98,6 +98,22 @@ def run(ctx: Ctx) -> None:
     for c in cases[:: max(1, len(cases) // 5)][:5]:
         ctx.sample({"tree": T.to_json(c["e"]), "rc": c["rc"], "impl": c["impl"].get("err", "ok")})
     EC.compare(ctx, cases, gate=["fulfilled", "conditional"], advisory=["fce", "hints"], name="evalRc")
+    # code and model differ somewhere: search around those expressions for an input on which validity itself goes wrong
+    for e0 in EC.disagreeing(cases)[:8]:
+        for t in EC.contexts_around(e0):
+            keys = E.keys_by_kind(t)["rc"]
+            if len(keys) > 4:
+                continue
+            outs = [(a, E.eval_rc(T.to_lark(t), a, EC.hints_for(t)).get("err") == "InvalidExpressionError") for a in E.assignments(keys, "FUK", ctx.rng, 81)]
+            ctx.count("search_around_disagreement", "expressions")
+            st = T.render(t, T.Style(ctx.rng, "min", "upper", "one")).strip()
+            raised = [r for _, r in outs]
+            if any(raised) and not all(raised):
+                ctx.violation("validity depends on condition states", {"tree": T.to_json(t), "string": st, "raises_under": next(a for a, r in outs if r), "not_under": next(a for a, r in outs if not r)},
+                              key=f"statedep:{repr(t)}")
+            elif all(raised) != E.invalid_at(t):
+                ctx.violation("evaluation and the structural criterion disagree" + (" (valid expression raises)" if not E.invalid_at(t) else " (invalid expression accepted)"),
+                              {"tree": T.to_json(t), "string": st, "structurally_invalid": E.invalid_at(t), "rc": outs[0][0]}, key=f"struct:{repr(t)}")
     ctx.assumptions += ["InvalidExpressionError derives from BaseException, so lark's Transformer does not wrap it (observed: the error class reaches the caller)"]
 
 
